@@ -56,7 +56,7 @@ impl<'c> FW<'c> {
         }
     }
 
-    fn check_ids(&self, props: &[&str], what: &str, got: &[(u32, bool)], want: &[u32]) -> Res {
+    fn check_ids(&self, props: &[&str], what: &dyn std::fmt::Display, got: &[(u32, bool)], want: &[u32]) -> Res {
         if got.iter().any(|(_, ok)| !ok) {
             return self.fail(DEAD, "dead-slot", format!("{what}: a slot does not hold a live, bit-for-bit intact token: {:?}", got));
         }
@@ -67,7 +67,7 @@ impl<'c> FW<'c> {
         Ok(())
     }
 
-    fn check_parents(&self, props: &[&str], what: &str, ids: &[u32], parents: &[u32]) -> Res {
+    fn check_parents(&self, props: &[&str], what: &dyn std::fmt::Display, ids: &[u32], parents: &[u32]) -> Res {
         let got: Vec<Option<u32>> = ledger::with(|l| ids.iter().map(|i| l.parent.get(*i as usize).copied().flatten()).collect());
         let want: Vec<Option<u32>> = parents.iter().map(|p| Some(*p)).collect();
         if got != want {
@@ -76,7 +76,7 @@ impl<'c> FW<'c> {
         Ok(())
     }
 
-    fn ledger_check(&self, what: &str) -> Res {
+    fn ledger_check(&self, what: &dyn std::fmt::Display) -> Res {
         let (inv, bad, n, viol_id) = ledger::with(|l| {
             let mut v: Option<(usize, u32, (u32, u32))> = None;
             for (i, d) in l.drops.iter().enumerate() {
@@ -129,13 +129,13 @@ impl<'c> FW<'c> {
         }
     }
 
-    fn expect_panic<T>(&self, props: &[&str], what: &str, r: Result<T, String>) -> Res {
+    fn expect_panic<T>(&self, props: &[&str], what: &dyn std::fmt::Display, r: Result<T, String>) -> Res {
         match r {
             Err(_) => Ok(()),
             Ok(_) => self.fail(props, "expected-panic-missing", format!("{what}: the operation must panic here but completed")),
         }
     }
-    fn expect_ok<T>(&self, what: &str, r: Result<T, String>) -> Res<T> {
+    fn expect_ok<T>(&self, what: &dyn std::fmt::Display, r: Result<T, String>) -> Res<T> {
         match r {
             Ok(x) => Ok(x),
             Err(m) => self.fail(ALL, "unexpected-panic", format!("{what}: panicked: {m}")),
@@ -150,7 +150,8 @@ impl<'c> FW<'c> {
         if exp == Exp::Skip {
             return Ok(());
         }
-        let what = format!("{op:?}");
+        let what = Lazy(|| format!("{op:?}"));
+        let what: &dyn std::fmt::Display = &what;
         let sid = mix(op.kind_id(), (self.m.live_objs() as u64) | ((self.m.held.len().min(15) as u64) << 4));
         let changed = !matches!(op, CAsSlice { .. } | BObserve { .. } | CDebug { .. } | BDebug { .. } | BInferLen { .. });
         let outcome_id: u64 = match &exp {
@@ -167,31 +168,31 @@ impl<'c> FW<'c> {
 
         match op {
             NewArray { n } => {
-                let a = self.expect_ok(&what, guard(|| new_any!(AnyArr, *n, fresh_array())))?;
+                let a = self.expect_ok(what, guard(|| new_any!(AnyArr, *n, fresh_array())))?;
                 let Exp::NewObj { ids, .. } = &exp else { unreachable!() };
                 let got = on_any!(AnyArr, &a, |x| ids_of(x.as_slice()));
-                self.check_ids(ALL, &what, &got, ids)?;
+                self.check_ids(ALL, what, &got, ids)?;
                 self.objs.push(Some(Obj::Arr(a)));
             }
             ToConsumer { .. } => {
                 let s = slot.unwrap();
-                let Some(Obj::Arr(a)) = self.objs[s].take() else { return self.fail(ALL, "harness-desync", what) };
+                let Some(Obj::Arr(a)) = self.objs[s].take() else { return self.fail(ALL, "harness-desync", what.to_string()) };
                 if matches!(a, AnyArr::V0(_)) {
                     self.ctx.cov.probe("consumer-of-empty-array");
                 }
-                let c = self.expect_ok(&what, guard(move || conv_any!(AnyArr, AnyCons, a, |x| ArrayConsumer::new(x))))?;
+                let c = self.expect_ok(what, guard(move || conv_any!(AnyArr, AnyCons, a, |x| ArrayConsumer::new(x))))?;
                 self.objs[s] = Some(Obj::Cons(c));
             }
             EmptyConsumer { n } => {
-                let c = self.expect_ok(&what, guard(|| new_any!(AnyCons, *n, empty_consumer())))?;
+                let c = self.expect_ok(what, guard(|| new_any!(AnyCons, *n, empty_consumer())))?;
                 self.objs.push(Some(Obj::Cons(c)));
             }
             CNext { .. } | CNextBack { .. } => {
                 let s = slot.unwrap();
                 let front = matches!(op, CNext { .. });
-                let Some(Obj::Cons(c)) = self.objs[s].as_mut() else { return self.fail(ALL, "harness-desync", what) };
+                let Some(Obj::Cons(c)) = self.objs[s].as_mut() else { return self.fail(ALL, "harness-desync", what.to_string()) };
                 let r = guard(|| on_any!(AnyCons, c, |x| if front { x.next() } else { x.next_back() }));
-                let r: Option<ManuallyDrop<Tok>> = self.expect_ok(&what, r)?;
+                let r: Option<ManuallyDrop<Tok>> = self.expect_ok(what, r)?;
                 let Exp::Taken(want) = exp else { unreachable!() };
                 match (r, want) {
                     (None, None) => {}
@@ -212,19 +213,19 @@ impl<'c> FW<'c> {
             }
             CAsSlice { .. } => {
                 let s = slot.unwrap();
-                let Some(Obj::Cons(c)) = self.objs[s].as_ref() else { return self.fail(ALL, "harness-desync", what) };
-                let got = self.expect_ok(&what, guard(|| on_any!(AnyCons, c, |x| ids_of(x.as_slice()))))?;
+                let Some(Obj::Cons(c)) = self.objs[s].as_ref() else { return self.fail(ALL, "harness-desync", what.to_string()) };
+                let got = self.expect_ok(what, guard(|| on_any!(AnyCons, c, |x| ids_of(x.as_slice()))))?;
                 let Exp::Slice(want) = &exp else { unreachable!() };
-                self.check_ids(CONS, &what, &got, want)?;
+                self.check_ids(CONS, what, &got, want)?;
             }
             CSwap { i, j, .. } | BSwap { i, j, .. } => {
                 let s = slot.unwrap();
                 let r = match self.objs[s].as_mut() {
                     Some(Obj::Cons(c)) => guard(|| on_any!(AnyCons, c, |x| { let sl = x.as_mut_slice(); let l = sl.len(); sl.swap(i % l, j % l); })),
                     Some(Obj::Build(b)) => guard(|| on_any!(AnyBuild, b, |x| { let sl = x.as_mut_slice(); let l = sl.len(); sl.swap(i % l, j % l); })),
-                    _ => return self.fail(ALL, "harness-desync", what),
+                    _ => return self.fail(ALL, "harness-desync", what.to_string()),
                 };
-                self.expect_ok(&what, r)?;
+                self.expect_ok(what, r)?;
             }
             CClone { fault, .. } | BClone { fault, .. } => {
                 let s = slot.unwrap();
@@ -236,7 +237,7 @@ impl<'c> FW<'c> {
                 let r: Result<Obj, String> = match self.objs[s].as_ref() {
                     Some(Obj::Cons(c)) => guard(|| Obj::Cons(conv_any!(AnyCons, AnyCons, c, |x| x.clone()))),
                     Some(Obj::Build(b)) => guard(|| Obj::Build(conv_any!(AnyBuild, AnyBuild, b, |x| x.clone()))),
-                    _ => return self.fail(ALL, "harness-desync", what),
+                    _ => return self.fail(ALL, "harness-desync", what.to_string()),
                 };
                 let (fired, _) = ledger::disarm();
                 if fired {
@@ -244,19 +245,19 @@ impl<'c> FW<'c> {
                 }
                 match &exp {
                     Exp::Panics => {
-                        self.expect_panic(props, &what, r)?;
+                        self.expect_panic(props, what, r)?;
                         // the source must be untouched
                     }
                     Exp::NewObj { ids, parents } => {
-                        let o = self.expect_ok(&what, r)?;
+                        let o = self.expect_ok(what, r)?;
                         let got = match &o {
                             Obj::Cons(c) => on_any!(AnyCons, c, |x| ids_of(x.as_slice())),
                             Obj::Build(b) => on_any!(AnyBuild, b, |x| ids_of(x.as_slice())),
                             _ => unreachable!(),
                         };
                         self.objs.push(Some(o));
-                        self.check_ids(props, &what, &got, ids)?;
-                        self.check_parents(props, &what, ids, parents.as_ref().unwrap())?;
+                        self.check_ids(props, what, &got, ids)?;
+                        self.check_parents(props, what, ids, parents.as_ref().unwrap())?;
                         if is_c && held_before > 0 {
                             self.ctx.cov.probe("consumer-clone-after-takes");
                         }
@@ -269,9 +270,9 @@ impl<'c> FW<'c> {
                 let r = match self.objs[s].as_ref() {
                     Some(Obj::Cons(c)) => guard(|| on_any!(AnyCons, c, |x| format!("{:?}", x))),
                     Some(Obj::Build(b)) => guard(|| on_any!(AnyBuild, b, |x| format!("{:?}", x))),
-                    _ => return self.fail(ALL, "harness-desync", what),
+                    _ => return self.fail(ALL, "harness-desync", what.to_string()),
                 };
-                let got = self.expect_ok(&what, r)?;
+                let got = self.expect_ok(what, r)?;
                 let Exp::Debug(want) = &exp else { unreachable!() };
                 if &got != want {
                     return self.fail(BUILD, "debug-mismatch", format!("{what}: Debug prints {got:?}, expected {want:?}"));
@@ -279,18 +280,18 @@ impl<'c> FW<'c> {
             }
             CAssertEmpty { .. } => {
                 let s = slot.unwrap();
-                let Some(Obj::Cons(c)) = self.objs[s].take() else { return self.fail(ALL, "harness-desync", what) };
+                let Some(Obj::Cons(c)) = self.objs[s].take() else { return self.fail(ALL, "harness-desync", what.to_string()) };
                 let r = guard(move || on_any!(AnyCons, c, |x| x.assert_is_empty()));
                 if exp == Exp::Panics {
                     self.ctx.cov.fault("misuse-assert_is_empty-nonempty");
-                    self.expect_panic(CONS, &what, r)?;
+                    self.expect_panic(CONS, what, r)?;
                 } else {
-                    self.expect_ok(&what, r)?;
+                    self.expect_ok(what, r)?;
                 }
             }
             CDrop { fault, .. } | BDrop { fault, .. } | ADrop { fault, .. } => {
                 let s = slot.unwrap();
-                let Some(o) = self.objs[s].take() else { return self.fail(ALL, "harness-desync", what) };
+                let Some(o) = self.objs[s].take() else { return self.fail(ALL, "harness-desync", what.to_string()) };
                 if *fault > 0 {
                     ledger::with(|l| l.drop_cd = Some(*fault));
                 }
@@ -303,49 +304,49 @@ impl<'c> FW<'c> {
                     }
                 }
                 if exp == Exp::Panics {
-                    self.expect_panic(ALL, &what, r)?;
+                    self.expect_panic(ALL, what, r)?;
                 } else {
-                    self.expect_ok(&what, r)?;
+                    self.expect_ok(what, r)?;
                     self.ctx.cov.fault("early-drop");
                 }
             }
             CForget { .. } | BForget { .. } => {
                 let s = slot.unwrap();
-                let Some(o) = self.objs[s].take() else { return self.fail(ALL, "harness-desync", what) };
+                let Some(o) = self.objs[s].take() else { return self.fail(ALL, "harness-desync", what.to_string()) };
                 std::mem::forget(o);
                 self.ctx.cov.fault("forget");
             }
             NewBuilder { n } => {
-                let b = self.expect_ok(&what, guard(|| new_any!(AnyBuild, *n, new_builder())))?;
+                let b = self.expect_ok(what, guard(|| new_any!(AnyBuild, *n, new_builder())))?;
                 self.objs.push(Some(Obj::Build(b)));
             }
             BPush { t, .. } => {
                 let s = slot.unwrap();
                 let tok = self.held.remove(t % self.held.len());
-                let Some(Obj::Build(b)) = self.objs[s].as_mut() else { return self.fail(ALL, "harness-desync", what) };
+                let Some(Obj::Build(b)) = self.objs[s].as_mut() else { return self.fail(ALL, "harness-desync", what.to_string()) };
                 let r = guard(move || on_any!(AnyBuild, b, |x| x.push(tok)));
                 if exp == Exp::Panics {
                     self.ctx.cov.fault("misuse-push-full");
                     self.ctx.cov.probe("builder-push-full");
-                    self.expect_panic(BUILD, &what, r)?;
+                    self.expect_panic(BUILD, what, r)?;
                 } else {
-                    self.expect_ok(&what, r)?;
+                    self.expect_ok(what, r)?;
                 }
             }
             BObserve { .. } => {
                 let s = slot.unwrap();
-                let Some(Obj::Build(b)) = self.objs[s].as_ref() else { return self.fail(ALL, "harness-desync", what) };
+                let Some(Obj::Build(b)) = self.objs[s].as_ref() else { return self.fail(ALL, "harness-desync", what.to_string()) };
                 let r = guard(|| on_any!(AnyBuild, b, |x| (x.len(), x.is_full(), ids_of(x.as_slice()))));
-                let (len, full, got) = self.expect_ok(&what, r)?;
+                let (len, full, got) = self.expect_ok(what, r)?;
                 let Exp::BuilderObs { len: wl, full: wf, ids } = &exp else { unreachable!() };
                 if len != *wl || full != *wf {
                     return self.fail(BUILD, "builder-len-mismatch", format!("{what}: len()={len} is_full()={full}, the model says {wl}/{wf}"));
                 }
-                self.check_ids(BUILD, &what, &got, ids)?;
+                self.check_ids(BUILD, what, &got, ids)?;
             }
             BBuild { .. } => {
                 let s = slot.unwrap();
-                let Some(Obj::Build(b)) = self.objs[s].take() else { return self.fail(ALL, "harness-desync", what) };
+                let Some(Obj::Build(b)) = self.objs[s].take() else { return self.fail(ALL, "harness-desync", what.to_string()) };
                 let r = guard(move || conv_any!(AnyBuild, AnyArr, b, |x| x.build()));
                 match &exp {
                     Exp::Panics => {
@@ -361,10 +362,10 @@ impl<'c> FW<'c> {
                         }
                     }
                     Exp::NewObj { ids, .. } => {
-                        let a = self.expect_ok(&what, r)?;
+                        let a = self.expect_ok(what, r)?;
                         let got = on_any!(AnyArr, &a, |x| ids_of(x.as_slice()));
                         self.objs[s] = Some(Obj::Arr(a));
-                        self.check_ids(BUILD, &what, &got, ids)?;
+                        self.check_ids(BUILD, what, &got, ids)?;
                         self.ctx.cov.probe("builder-built-array-recirculates");
                     }
                     _ => unreachable!(),
@@ -373,7 +374,7 @@ impl<'c> FW<'c> {
             BInferLen { .. } => {
                 // the length inference helper must be a no-op on both operands
                 let s = slot.unwrap();
-                let Some(Obj::Build(b)) = self.objs[s].as_ref() else { return self.fail(ALL, "harness-desync", what) };
+                let Some(Obj::Build(b)) = self.objs[s].as_ref() else { return self.fail(ALL, "harness-desync", what.to_string()) };
                 for o in self.objs.iter().flatten() {
                     if let Obj::Cons(c) = o {
                         macro_rules! same_n {
@@ -385,7 +386,7 @@ impl<'c> FW<'c> {
             }
             MapNew { closure, exit, .. } => {
                 let s = slot.unwrap();
-                let Some(Obj::Arr(a)) = self.objs[s].take() else { return self.fail(ALL, "harness-desync", what) };
+                let Some(Obj::Arr(a)) = self.objs[s].take() else { return self.fail(ALL, "harness-desync", what.to_string()) };
                 let held = &mut self.held;
                 let (cl, ex) = (*closure % N_CLOSURES, *exit);
                 // MapOut<N> is size-specific: fold it into Option<AnyArr> inside the guard
@@ -395,7 +396,7 @@ impl<'c> FW<'c> {
                     }
                     run!(V0, V1, V2, V3, V5, V8)
                 });
-                self.macro_outcome(MACRO_NEW, &what, s, false, &exp, r, *exit, "map_")?;
+                self.macro_outcome(MACRO_NEW, what, s, false, &exp, r, *exit, "map_")?;
             }
             FromFnNew { n, exit } | FromFnOld { n, exit } => {
                 let old = matches!(op, FromFnOld { .. });
@@ -408,11 +409,11 @@ impl<'c> FW<'c> {
                     run!(0 V0, 1 V1, 2 V2, 3 V3, 5 V5, 8 V8)
                 });
                 let s = self.objs.len();
-                self.macro_outcome(if old { MACRO_OLD } else { MACRO_NEW }, &what, s, true, &exp, r, *exit, if old { "from_fn!" } else { "from_fn_" })?;
+                self.macro_outcome(if old { MACRO_OLD } else { MACRO_NEW }, what, s, true, &exp, r, *exit, if old { "from_fn!" } else { "from_fn_" })?;
             }
             MapOld { exit, .. } => {
                 let s = slot.unwrap();
-                let Some(Obj::Arr(a)) = self.objs[s].as_ref() else { return self.fail(ALL, "harness-desync", what) };
+                let Some(Obj::Arr(a)) = self.objs[s].as_ref() else { return self.fail(ALL, "harness-desync", what.to_string()) };
                 let ex = *exit;
                 let r: Result<Option<AnyArr>, String> = guard(move || {
                     macro_rules! run {
@@ -421,7 +422,7 @@ impl<'c> FW<'c> {
                     run!(V0, V1, V2, V3, V5, V8)
                 });
                 let s2 = self.objs.len();
-                self.macro_outcome(MACRO_OLD, &what, s2, true, &exp, r, *exit, "map!")?;
+                self.macro_outcome(MACRO_OLD, what, s2, true, &exp, r, *exit, "map!")?;
                 let _ = s;
             }
             Destructure { shape } => {
@@ -430,10 +431,10 @@ impl<'c> FW<'c> {
                 let toks: Vec<Tok> = self.held.drain(..arity).collect();
                 let sh = *shape;
                 let r = guard(move || destructure_shape(sh, toks));
-                let out = self.expect_ok(&what, r)?;
+                let out = self.expect_ok(what, r)?;
                 let got = ids_of(&out);
                 self.held.extend(out);
-                self.check_ids(CONS, &what, &got, bound)?;
+                self.check_ids(CONS, what, &got, bound)?;
                 self.ctx.cov.set_insert("destructure_shapes_run", (*shape % N_SHAPES) as u64);
                 if !dropped.is_empty() {
                     self.ctx.cov.probe("destructure-underscore-or-rest-dropped-immediately");
@@ -448,7 +449,7 @@ impl<'c> FW<'c> {
             HDrop { t } => {
                 let tok = self.held.remove(t % self.held.len());
                 let r = guard(move || drop(tok));
-                self.expect_ok(&what, r)?;
+                self.expect_ok(what, r)?;
             }
             CopyScenario { n, front, back } => {
                 let (n, f, b) = (*n, *front, *back);
@@ -456,7 +457,7 @@ impl<'c> FW<'c> {
                     macro_rules! run { ($($n:literal),*) => { match n { $( $n => copy_scenario::<$n>(f, b), )* _ => Ok(()) } }; }
                     run!(0, 1, 2, 3, 5, 8)
                 });
-                match self.expect_ok(&what, r)? {
+                match self.expect_ok(what, r)? {
                     Ok(()) => {}
                     Err(m) => return self.fail(BUILD, "copy-future-mismatch", format!("{what}: {m}")),
                 }
@@ -467,18 +468,18 @@ impl<'c> FW<'c> {
                     macro_rules! run { ($($n:literal),*) => { match n { $( $n => zst_scenario::<$n>(f, b, c), )* _ => Ok(()) } }; }
                     run!(0, 1, 2, 3, 5, 8)
                 });
-                match self.expect_ok(&what, r)? {
+                match self.expect_ok(what, r)? {
                     Ok(()) => {}
                     Err(m) => return self.fail(CONS, "zst-count-mismatch", format!("{what}: {m}")),
                 }
             }
         }
-        self.ledger_check(&what)
+        self.ledger_check(what)
     }
 
     /// common verdict for map_!/from_fn_!/map!/from_fn! scenarios
     #[allow(clippy::too_many_arguments)]
-    fn macro_outcome(&mut self, props: &[&str], what: &str, slot: usize, push: bool, exp: &Exp, r: Result<Option<AnyArr>, String>, exit: Exit, name: &'static str) -> Res {
+    fn macro_outcome(&mut self, props: &[&str], what: &dyn std::fmt::Display, slot: usize, push: bool, exp: &Exp, r: Result<Option<AnyArr>, String>, exit: Exit, name: &'static str) -> Res {
         let fired = !matches!(exp, Exp::NewObj { .. });
         if fired {
             self.ctx.cov.fault(exit.name());
@@ -558,7 +559,7 @@ fn exec(case: &FCase, ctx: &mut Ctx) -> Res {
         w.m.teardown();
         result = match r {
             Err(m) => w.fail(ALL, "unexpected-panic", format!("teardown panicked: {m}")),
-            Ok(()) => w.ledger_check("teardown"),
+            Ok(()) => w.ledger_check(&"teardown"),
         };
     }
     match result {
